@@ -271,6 +271,13 @@ def parts(tier):
                         for b in twin:
                             if a < b or (a == b == 1.0):
                                 yield (tiers, 0.0, 4.0, a, b)
+        # textgrids with no tier at all / a single tier: the textgrid-level region check and span arithmetic on their own
+        for tiers in ((), (("P", "p", D.labelled_points((1.0, 3.0))),), (("I", "a", D.labelled(((0.0, 1.0), (2.0, 4.0)))),),
+                      (("P", "p", ()),), (("I", "a", ()),)):
+            for a in twin:
+                for b in twin:
+                    if 0.0 <= a <= 4.0 and 0.0 <= b <= 4.0:
+                        yield (tiers, 0.0, 4.0, a, b)
         # a textgrid that is LONGER than every one of its tiers (and tiers of different lengths): regions inside the shortest tier
         short_sets = D.interval_sets((0.0, 1.0, 2.0), 2)
         for s1 in short_sets:
